@@ -539,7 +539,7 @@ def gate_targets(nd: dict) -> list[str]:
     return t
 
 
-EXC_KINDS = ["plain", "plain", "noargs", "typeerror_kw", "keyerror", "valueerror"]
+EXC_KINDS = ["plain", "plain", "noargs", "typeerror_kw", "keyerror", "valueerror", "falsy"]
 
 
 def gen_sibling_wrappers(rng: random.Random) -> dict:
